@@ -190,7 +190,7 @@ PROPS = {
         "assumptions": ["coordinates are dyadic so that shifted coordinates are exact in binary64"],
     },
     "C10": {
-        "lean_modules": ["StimModel.Props.C10", "StimModel.Props.C03", "StimModel.Props.Fourier"],
+        "lean_modules": ["StimModel.Props.C10", "StimModel.Props.C10b", "StimModel.Props.C03", "StimModel.Props.Fourier"],
         "areas": [
             {"area": "cdem", "shrink": True, "n": {"quick": 500, "thorough": 8000}, "extra": ["decompose"], "replayable": True},
             {"area": "cli", "n": {"quick": 100, "thorough": 2000}, "extra": ["analyze_errors", "decompose"]},
